@@ -219,7 +219,9 @@ func itemsXML(items []genItem) string {
 const genFields = `<fields><field number="8" name="BeginString" type="STRING"/><field number="10" name="CheckSum" type="STRING"/>` +
 	`<field number="11" name="A" type="INT"/><field number="12" name="B" type="STRING"><value enum="1" description="ONE"/><value enum="2" description="TWO"/></field>` +
 	`<field number="13" name="C" type="CHAR"/><field number="14" name="D" type="PRICE"/><field number="15" name="E" type="STRING"/><field number="16" name="F" type="BOOLEAN"><value enum="Y" description="YES"/><value enum="N" description="NO"/></field>` +
-	`<field number="21" name="NoG1" type="NUMINGROUP"/><field number="22" name="NoG2" type="NUMINGROUP"/></fields>`
+	`<field number="21" name="NoG1" type="NUMINGROUP"/><field number="22" name="NoG2" type="NUMINGROUP"/>` +
+	`<field number="31" name="L1" type="STRING"/><field number="32" name="L2" type="INT"/><field number="33" name="L3" type="CHAR"/><field number="34" name="L4" type="STRING"/>` +
+	`<field number="35" name="L5" type="STRING"/><field number="36" name="L6" type="INT"/><field number="37" name="L7" type="STRING"/><field number="38" name="L8" type="STRING"/></fields>`
 
 func genDoc(msgs [][]genItem, comps map[string][]genItem, header, trailer []genItem) string {
 	var sb strings.Builder
@@ -289,6 +291,31 @@ func c19Generate(quick bool, emit func(doc string)) {
 		}
 		emit(genDoc([][]genItem{msg}, comps, h, trl))
 	}
+	// T5: sibling components (and groups) that begin with the same nested component of 1..8 fields and each
+	// declare something of their own behind it (a loader that shares the nested component's field list between
+	// its users shows up here, for the list lengths that leave spare capacity)
+	for n := 1; n <= 8; n++ {
+		var inner []genItem
+		for k := 1; k <= n; k++ {
+			inner = append(inner, genItem{kind: "f", name: fmt.Sprintf("L%d", k), req: k%2 == 1})
+		}
+		for m := 0; m < 1<<4; m++ {
+			comps := map[string][]genItem{
+				"CL": inner,
+				"P1": {{kind: "c", name: "CL", req: b(m, 0)}, {kind: "f", name: "A", req: b(m, 1)}},
+				"P2": {{kind: "c", name: "CL", req: b(m, 2)}, {kind: "f", name: "B", req: b(m, 3)}},
+				"P3": {{kind: "c", name: "CL", req: true}, {kind: "g", name: "NoG2", req: b(m, 1), sub: []genItem{{kind: "f", name: "E", req: true}}}},
+			}
+			msgs := [][]genItem{
+				{{kind: "c", name: "P1", req: true}},
+				{{kind: "c", name: "P2", req: b(m, 0)}},
+				{{kind: "c", name: "P3", req: true}, {kind: "f", name: "D", req: false}},
+				{{kind: "g", name: "NoG1", req: true, sub: []genItem{{kind: "c", name: "CL", req: b(m, 2)}, {kind: "f", name: "C", req: b(m, 3)}}}},
+				{{kind: "c", name: "CL", req: b(m, 1)}, {kind: "f", name: "F", req: true}},
+			}
+			emit(genDoc(msgs, comps, hdr, trl))
+		}
+	}
 	// T4: one dangling reference at every position of a structure that uses every construct
 	ref := func(kind, name string) genItem { return genItem{kind: kind, name: name, req: true} }
 	for pos := 0; pos < 9; pos++ {
@@ -354,7 +381,7 @@ func runC19(c *core.Ctx) {
 	} else {
 		c.SetDeadline(30 * time.Minute)
 	}
-	c.SetRule("all nine shipped specifications in full (every message, header, trailer, group at every depth, field type and enumeration) plus generated specifications: three structural templates (component chains, groups in components, components in groups, nested groups) with every combination of required flags and member permutations, duplicate declarations, and every placement of one dangling field/component/group reference; oracle = independent XML walk")
+	c.SetRule("all nine shipped specifications in full (every message, header, trailer, group at every depth, field type and enumeration) plus generated specifications: three structural templates (component chains, groups in components, components in groups, nested groups) with every combination of required flags and member permutations, duplicate declarations, sibling components and groups sharing a leading nested component of 1-8 fields, and every placement of one dangling field/component/group reference; oracle = independent XML walk")
 	c.Assume("when a tag is declared twice at the top level of one message only the set-valued facts (reachable tags, required tags) are compared")
 	var evals int64
 	for _, n := range c09DictNames {
